@@ -66,7 +66,9 @@ func vStartServer(maxStreams uint32) *vServer {
 		close(s.loopEnd)
 	}()
 	go func() {
-		s.readErr <- sc.readLoop()
+		err := sc.readLoop()
+		close(sc.reader) // what Serve does once the read loop is back
+		s.readErr <- err
 	}()
 	return s
 }
